@@ -2,7 +2,7 @@
 ID = "C13"
 CRATE = "c13"
 COQ_DIR = "C13"
-PROFILES = ["debug"]
+PROFILES = ["debug", "release"]
 CORR_IMPORT = "From RlibV Require Import C13.Model C13.Corr.\nOpen Scope Z_scope."
 AUDIT_IMPORT = "From mathcomp Require Import all_ssreflect.\nFrom RlibV Require Import C13.Model C13.Ghost C13.Corr C13.Properties."
 EXPLAIN = "explain"
